@@ -19,6 +19,8 @@ r = sh('git -C /repo worktree add -q --detach %s HEAD' % repo); assert r.returnc
 patch = '/verif/seeded/%s/patch.diff' % sid
 r = sh('git -C %s apply %s' % (repo, patch))
 if r.returncode != 0:
+    r = sh('cd %s && patch -p1 --fuzz=3 --no-backup-if-mismatch -i %s' % (repo, patch))
+if r.returncode != 0:
     print('APPLY FAILED', r.stdout); sh('git -C /repo worktree remove --force %s' % repo); sys.exit(3)
 sh('rsync -a --exclude work --exclude harness/target --exclude .git --exclude evidence /verif/ %s/' % ver)
 os.makedirs(ver + '/evidence', exist_ok=True)
